@@ -10,7 +10,7 @@ import nodes as N
 
 WORDS = ['alpha', 'beta', 'gamma', 'delta', 'x', 'y', 'item1', 'item2', 'a b', 'hello']
 ATTRS = ['name', 'count', 'size', 'flag', 'ratio', 'items', 'opts', 'child', 'kind', 'when', 'where',
-         'note', 'first_name', 'max_size', 'a', 'b', 'c', '_count', '_values']
+         'note', 'first_name', 'max_size', 'a', 'b', 'c', '_count', '_values', 'max_open_count', 'a_b_c']
 SCALARS = [('str',), ('int',), ('float',), ('bool',)]
 
 
@@ -132,6 +132,9 @@ def gen_model(rng, features=None):
             c['extra_early'] = True
         if hooks and rng.random() < 0.2:
             c['savorize'] = gen_savorize(rng, c)
+        if hooks and 'savorize' not in c and rng.random() < 0.3 and \
+                any('_' in p['name'].strip('_') for p in params):
+            c['savorize'] = [('d2u',)]           # dashed keys in the document, underscores in the signature
         if hooks and rng.random() < 0.12:
             c['recognize'] = gen_recognize(rng, c, avail)
         if features and 'sweeten' in features and rng.random() < 0.3:
